@@ -24,6 +24,11 @@ func runC07(c *Ctx) {
 		return
 	}
 	c07Binding(c, d, "C07.guarded-binding")
+	// `$a = $b = e` binds both (assignment is right-associative) and `,` sequences assignment-level operands:
+	// the parser's layering of `,` and `=` (shared with C02)
+	if ro := c.needRoles("C07.roles"); ro != nil {
+		c02Layers(c, ro, "C07.assignment-and-sequence-parsing")
+	}
 	c07Order(c, d)
 	c07Fresh(c, "C07.fresh-results")
 	c07NoDataWrites(c)
@@ -420,6 +425,9 @@ func c07Fresh(c *Ctx, rule string) {
 					cons := fmt.Sprintf("%s: sort#%d", c.P.FuncKey(f), perFn["sort"])
 					okLocal := true
 					for _, rt := range sliceOr.Roots(cc.Args[0]) {
+						if rt.Kind == "call" && rt.Fn != nil && rt.Fn.String() == "(reflect.Value).MapKeys" {
+							continue // MapKeys returns a new slice
+						}
 						if !(rt.Kind == "alloc" || rt.Kind == "const") {
 							okLocal = false
 						}
